@@ -185,9 +185,35 @@ def cf_raises(vm, st, exc_class, exc_args):
             ('message unchanged on rejection', not st['fields'].mutated())]
 
 
+class TypeOfOther(Sym):
+    """type(other)"""
+
+
+def cf_type(vm, x):
+    st = vm.state
+    if isinstance(x, SRef) and x.t.eq(st['other'].t):
+        return TypeOfOther()
+    return NotImplemented
+
+
+def cf_equal(vm, a, b):
+    """type(other) == <the receiver's class>: message classes compare by *structure* (the generator metaclass defines __eq__
+    over bases, field names and field types), so this is true for every instance and for look-alike classes as well: a
+    predicate of its own, implied by -- but not implying -- `other is an instance`"""
+    st = vm.state
+    if isinstance(a, TypeOfOther) or isinstance(b, TypeOfOther):
+        if 'same_structure' not in st:
+            st['same_structure'] = vm.fresh('type_equal_by_structure', z3.BoolSort())
+            vm.assume(z3.Implies(st['is_instance'], st['same_structure']))
+        return SBool(st['same_structure'])
+    return NotImplemented
+
+
 def cf_hooks():
     h = dict(HOOKS)
     h['isinstance'] = cf_isinstance
+    h['type'] = cf_type
+    h['equal'] = cf_equal
     return h
 
 
